@@ -66,10 +66,14 @@ def run(ctx):
     # 1. the design (encoder/decoder of transfer.go against the specified Transfer) is checked on every
     #    state of the runs that also export the behaviours for the driver
     inv = "CodecMatchesSpec CodecAdditive KeyCodec RowHostsAdmissible RowSane"
-    b1 = ctx.tlc("RowTransferMC", "RowTransfer_beh3.cfg" if th else "RowTransfer_beh.cfg", timeout=3000 if th else 900,
-                 name="MC + behaviour export (<=%d events, 30 shapes)" % (3 if th else 2),
-                 constants=dict(consts, MaxEv=3 if th else 2, shapes=30, keys=1, invariants=inv))
+    b1 = ctx.tlc("RowTransferMC", "RowTransfer_beh.cfg", timeout=900, name="MC + behaviour export (<=2 events, 30 shapes)",
+                 constants=dict(consts, MaxEv=2, shapes=30, keys=1, invariants=inv))
     ctx.require_model_ok(b1, "RowTransfer invariants")
+    if th:
+        b3 = ctx.tlc("RowTransferMC", "RowTransfer_beh3.cfg", timeout=3000, name="MC + behaviour export (<=3 events, 16 shapes)",
+                     constants=dict(consts, MaxEv=3, shapes=16, keys=1, invariants=inv))
+        ctx.require_model_ok(b3, "RowTransfer invariants (<=3 events)")
+        b1.behaviours += b3.behaviours
     tab = tables(ctx, b1)
     b2 = ctx.tlc("RowTransferMC", "RowTransfer_beh_keys.cfg", timeout=900, name="MC + behaviour export (all key layouts)",
                  constants=dict(consts, MaxEv=1, shapes=30, keys=6, invariants=inv))
